@@ -72,13 +72,42 @@ theorem abs_by_sign (x : BitVec 32) : (x ^^^ x.sshiftRight 31) - x.sshiftRight 3
     rw [this, BitVec.xor_allOnes, BitVec.neg_eq_not_add, BitVec.sub_eq_add_neg]
     congr 1
 
+/-! bit operations on a 64-bit lane done on its two 32-bit halves -/
+theorem append_xor_halves (h l : BitVec 32) (c : BitVec 64) : (h ^^^ hi32 c) ++ (l ^^^ lo32 c) = (h ++ l) ^^^ c := by
+  conv => rhs; rw [← hi32_lo32 c]
+  rw [BitVec.xor_append]
+theorem append_andnot_halves (h l : BitVec 32) (c : BitVec 64) : (~~~hi32 c &&& h) ++ (~~~lo32 c &&& l) = ~~~c &&& (h ++ l) := by
+  conv => rhs; rw [← hi32_lo32 c]
+  rw [BitVec.not_append, BitVec.and_append]
+theorem abs64_by_sign (h l : BitVec 32) :
+    ((h ^^^ h.sshiftRight 31) ++ (l ^^^ h.sshiftRight 31)) - (h.sshiftRight 31 ++ h.sshiftRight 31) = abs64 (h ++ l) := by
+  unfold abs64
+  rw [sshift31, BitVec.slt_zero_eq_msb]
+  have hm : (h ++ l).msb = h.msb := by rw [BitVec.msb_append]; simp
+  rw [hm]
+  cases hh : h.msb
+  · simp
+  · simp only [if_true]
+    have e1 : (4294967295#32) = BitVec.allOnes 32 := by decide
+    have e2 : (BitVec.allOnes 32 ++ BitVec.allOnes 32) = BitVec.allOnes 64 := by decide
+    rw [e1, BitVec.xor_allOnes, BitVec.xor_allOnes, e2, ← BitVec.not_append, BitVec.neg_eq_not_add, BitVec.sub_eq_add_neg]
+    congr 1
+
+/-! constant mask lanes of the 3-lane masked loads / stores -/
+theorem msb_ones32 : (4294967295#32).msb = true := by decide
+theorem msb_zero32 : (0#32).msb = false := by decide
+theorem hi32_ones : hi32 18446744073709551615#64 = 4294967295#32 := by decide
+theorem lo32_ones : lo32 18446744073709551615#64 = 4294967295#32 := by decide
+theorem hi32_zero : hi32 0#64 = 0#32 := by decide
+theorem lo32_zero : lo32 0#64 = 0#32 := by decide
+
 attribute [simd] map32 zip32 zip64 map64 low32 low64 setzero set1_32 set1_64 setr32 setr64 set32 set64
   add_epi32 sub_epi32 mullo_epi32 add_epi64 sub_epi64 mullo_epi64 mul_epu32 and_si or_si xor_si andnot_si
   srai_epi32 srli_epi32 slli_epi32 abs_epi32 abs_epi64 min_epi32 max_epi32 min_epi64 max_epi64 slli_si128
   shuffle_epi32 shuffle_ps shuffle_pd unpacklo_epi32 unpackhi_epi32 unpacklo_epi64 unpackhi_epi64 movehl_ps movelh_ps movehdup_ps
-  blend_ps cast128_256 extractf128 insertf128 sel2f128 permute2f128 permute4x64 permutexvar32 permutexvar64 hadd_ps hadd_pd
+  blend_ps cast128_256 extractf128 insertf128 sel2f128 permute2f128 permute4x64 permutexvar32 permutexvar64 permutex2var32 permutex2var64 hadd_ps hadd_pd
   add_ps sub_ps mul_ps div_ps min_ps max_ps sqrt_ps add_pd sub_pd mul_pd div_pd min_pd max_pd sqrt_pd
   add_ss sub_ss mul_ss add_sd sub_sd mul_sd fmadd_ps fmadd_pd fmsub_ps fmsub_pd fnmadd_ps fnmadd_pd cvt32 cvt64
-  of64 lo32_mul lo32_append hi32_append hi32_lo32 lane64_of64 of64_lane64
+  msb_ones32 msb_zero32 hi32_ones lo32_ones hi32_zero lo32_zero loadw loadw_ss loadw_sd storew maskload32 maskload64 maskstore32 maskstore64 kload32 kload64 kstore32 kstore64 of64 append_xor_halves append_andnot_halves abs64_by_sign lo32_mul lo32_append hi32_append hi32_lo32 lane64_of64 of64_lane64
 
 end Fastor.Simd
